@@ -4,6 +4,7 @@
 #include "../sim/helpers.h"
 #include <sanitizer/lsan_interface.h>
 #include <cstdarg>
+#include <cstring>
 using namespace verif;
 using namespace sim;
 
@@ -18,6 +19,10 @@ const char *verif_rule =
     "application holds a reference or an async entry is pending; a DEL before teardown is explained by the session timeout (idle >= timeout) or by idle-limit eviction (limit reached, victim "
     "not younger than every certainly-idle session); certainly-idle sessions are gone once timeout + slack has passed and the limit evicts when a new peer arrives; after the contexts are "
     "freed NEW and DEL counts match, the typed-allocation table is empty, nothing was released twice, LeakSanitizer finds no leak, and ASan saw no use after release. "
+    "A quarter of the cases (last tape byte) run scenario (C) instead: libcoap TCP server, up to 8 scripted connections, history of 3..30 operations from {connect (+CSM), complete request for a plain / "
+    "reference-holding / async resource, only the first k bytes of a request, the rest of it, Ping / Release / Abort signalling, peer closes (also in the middle of a message or before the accept), I/O step, "
+    "time jump, application releases a reference}, teardown at that point; oracle: one NEW per connection, handlers only see live sessions, no DEL while referenced, a connection the peer closed >= 100 ms ago "
+    "with nothing referring to it is gone after settling, NEW/DEL balance, allocation table empty, nothing released twice, no leak. "
     "Non-trivial = >= 3 sessions created and a reclamation, eviction or reference-holding path exercised; distinct = by history + event log";
 size_t verif_max_tape = 320;
 
@@ -65,6 +70,9 @@ struct Case {
   unsigned evictions = 0, reclaimed = 0, held_total = 0, async_total = 0, client_ops = 0, obs_rst = 0, oneway = 0;
   std::vector<std::string> log;
   std::set<uint16_t> req_mids;   // message ids of requests sent by scripted peers (a NON response re-uses the request's id: not a notification)
+  // (C) stream scenario: sessions are connections; the idle-limit / time-out model of the datagram scenario does not apply
+  bool tcp_mode = false;
+  std::map<Addr, uint64_t> closed_at;   // remote address of a connection -> when the peer closed it
 } *G = nullptr;
 
 void fail(const char *fmt, ...) __attribute__((format(printf, 1, 2)));
@@ -132,6 +140,30 @@ void explain_pending_del(bool followed_by_new) {
 int event_handler(coap_session_t *session, const coap_event_t event) {
   if (!G) return 0;
   World &w = *G->w;
+  if (G->tcp_mode) {
+    if (event == COAP_EVENT_SERVER_SESSION_NEW) {
+      G->news++;
+      Key k = key_of(session);
+      if (G->live.count(session)) fail("SERVER_SESSION_NEW for session %p which is already live", (void *)session);
+      for (auto &kv : G->live) if (kv.second.key == k) fail("second live session for connection %s", k.str().c_str());
+      SModel m;
+      m.key = k;
+      m.born = m.last_activity = w.now;
+      G->live[session] = m;
+      w.callback("NEW " + k.str());
+    } else if (event == COAP_EVENT_SERVER_SESSION_DEL) {
+      G->dels++;
+      auto it = G->live.find(session);
+      if (it == G->live.end()) { fail("SERVER_SESSION_DEL for session %p that is not live (never announced or already deleted)", (void *)session); return 0; }
+      w.callback("DEL " + it->second.key.str());
+      if (!G->tearing_down) {
+        if (it->second.app_refs > 0) fail("session %s deleted while the application holds %d reference(s)", it->second.key.str().c_str(), it->second.app_refs);
+        else if (it->second.async_pending > 0) fail("session %s deleted while an async entry refers to it", it->second.key.str().c_str());
+      }
+      G->live.erase(it);
+    }
+    return 0;
+  }
   if (event == COAP_EVENT_SERVER_SESSION_NEW) {
     sync_activity();
     G->news++;
@@ -190,7 +222,7 @@ int event_handler(coap_session_t *session, const coap_event_t event) {
 }
 
 SModel *check_handler_session(coap_session_t *session, const char *what) {
-  sync_activity();
+  if (!G->tcp_mode) sync_activity();
   auto it = G->live.find(session);
   if (it == G->live.end()) { fail("%s handler called with session %p that is not live", what, (void *)session); return nullptr; }
   Key k = key_of(session);
@@ -246,6 +278,161 @@ void h_obs(coap_resource_t *, coap_session_t *session, const coap_pdu_t *request
 
 coap_response_t c_resp(coap_session_t *, const coap_pdu_t *, const coap_pdu_t *, const coap_mid_t) { return COAP_RESPONSE_OK; }
 
+// ---- (C) TCP server, scripted stream peers: connect, CSM, complete / partial messages, Ping / Release / Abort, close, teardown at any point ----
+void tcp_scenario(Tape &t, Case &cs, Info *info, std::vector<std::string> &history) {
+  World w;
+  cs.w = &w;
+  seed_prng(t.u16());
+  unsigned to_s = t.pick({2, 2}) ? t.range(1, 6) : 0;
+  cs.timeout_ms = to_s ? to_s * 1000ull : 300000ull;
+  unsigned nops = t.range(3, 30);
+  bool settle_before_teardown = t.chance(128);
+  coap_context_t *sctx = coap_new_context(nullptr);
+  if (!sctx) return;
+  cs.sctx = sctx;
+  coap_register_event_handler(sctx, event_handler);
+  if (to_s) coap_context_set_session_timeout(sctx, to_s);
+  Addr srv = Addr::v4(10, 0, 0, 1, 5683);
+  {
+    coap_address_t la;
+    srv.to_coap(&la);
+    coap_new_endpoint(sctx, &la, COAP_PROTO_TCP);
+  }
+  struct { const char *name; coap_method_handler_t h; } RES[] = {{"plain", h_plain}, {"hold", h_hold}, {"sep", h_sep}};
+  for (auto &r : RES) {
+    coap_resource_t *res = coap_resource_init(coap_make_str_const(r.name), 0);
+    coap_register_handler(res, COAP_REQUEST_GET, r.h);
+    coap_add_resource(sctx, res);
+  }
+  w.add_context(sctx);
+  struct Conn { StreamPeer *sp = nullptr; bool closed = false; std::vector<uint8_t> rest; };
+  std::vector<Conn> conns;
+  auto frame = [](uint8_t code, const std::vector<uint8_t> &token, const char *path, const std::string &query) {
+    ref::Msg m;
+    m.code = code;
+    m.token = token;
+    if (path) m.opts.push_back(ref::Opt{11, std::vector<uint8_t>(path, path + strlen(path))});
+    if (!query.empty()) m.opts.push_back(ref::Opt{15, std::vector<uint8_t>(query.begin(), query.end())});
+    return ref::encode(m, ref::F_TCP);
+  };
+  unsigned partials = 0, signals = 0, closes = 0;
+  for (unsigned i = 0; i < nops && !cs.violated; i++) {
+    char hb[96];
+    size_t op = conns.empty() ? 0 : t.pick({3, 6, 3, 2, 2, 3, 3, 2, 1});
+    Conn *c = conns.empty() ? nullptr : &conns[t.range(0, (uint32_t)conns.size() - 1)];
+    switch (op) {
+    case 0: {  // a new connection (its own source port), usually followed by the peer's CSM
+      if (conns.size() >= 8) { snprintf(hb, sizeof hb, "noop"); break; }
+      Conn n;
+      n.sp = w.add_stream_peer(Addr::v4(10, 0, 2, (uint8_t)(1 + conns.size() % 3), (uint16_t)(40000 + conns.size())), false);
+      w.stream_connect(n.sp, srv);
+      bool csm = t.chance(224);
+      if (csm) { std::vector<uint8_t> b = frame(0xE1, {}, nullptr, ""); w.stream_send(n.sp, b, {b.size()}); }
+      conns.push_back(n);
+      snprintf(hb, sizeof hb, "connect(c%zu%s)", conns.size() - 1, csm ? ",csm" : "");
+      break;
+    }
+    case 1: case 2: {  // a request: complete (1) or only its first k bytes now (2)
+      if (c->closed || !c->rest.empty()) { snprintf(hb, sizeof hb, "noop"); break; }
+      size_t kind = t.pick({4, 2, 2});
+      std::vector<uint8_t> token = {(uint8_t)i, (uint8_t)(c - &conns[0])};
+      std::vector<uint8_t> b = frame(1, token, kind == 0 ? "plain" : kind == 1 ? "hold" : "sep", kind == 2 ? "d=" + std::to_string(t.pick({1, 1}) ? t.range(1, 3000) : t.range(3000, 40000)) : "");
+      size_t k = op == 1 ? b.size() : t.range(1, (uint32_t)b.size() - 1);
+      w.stream_send(c->sp, std::vector<uint8_t>(b.begin(), b.begin() + (long)k), {k});
+      c->rest.assign(b.begin() + (long)k, b.end());
+      if (op == 2) partials++;
+      snprintf(hb, sizeof hb, "%s(c%zu,%s,%zu/%zuB)", op == 1 ? "request" : "partial", (size_t)(c - &conns[0]), kind == 0 ? "plain" : kind == 1 ? "hold" : "sep", k, b.size());
+      break;
+    }
+    case 3:  // the rest of a message begun earlier
+      if (c->closed || c->rest.empty()) { snprintf(hb, sizeof hb, "noop"); break; }
+      w.stream_send(c->sp, c->rest, {c->rest.size()});
+      c->rest.clear();
+      snprintf(hb, sizeof hb, "complete(c%zu)", (size_t)(c - &conns[0]));
+      break;
+    case 4: {  // signalling: Ping, Release, Abort (between messages only)
+      if (c->closed || !c->rest.empty()) { snprintf(hb, sizeof hb, "noop"); break; }
+      static const uint8_t SIG[] = {0xE2, 0xE4, 0xE5};
+      uint8_t code = SIG[t.pick({2, 2, 2})];
+      std::vector<uint8_t> b = frame(code, {}, nullptr, "");
+      w.stream_send(c->sp, b, {b.size()});
+      signals++;
+      snprintf(hb, sizeof hb, "signal(c%zu,7.%02u)", (size_t)(c - &conns[0]), code & 31);
+      break;
+    }
+    case 5:  // the peer closes, possibly in the middle of a message
+      if (c->closed) { snprintf(hb, sizeof hb, "noop"); break; }
+      w.stream_close(c->sp);
+      c->closed = true;
+      cs.closed_at[c->sp->addr] = w.now;
+      closes++;
+      snprintf(hb, sizeof hb, "close(c%zu%s)", (size_t)(c - &conns[0]), c->rest.empty() ? "" : ",mid-message");
+      break;
+    case 6: { uint32_t ms = t.range(0, 50); w.run(w.now + ms, 8000); snprintf(hb, sizeof hb, "io(%ums)", ms); break; }
+    case 7: {
+      uint32_t ms = t.pick({2, 2}) ? t.range(0, 2000) : (uint32_t)(cs.timeout_ms > 3000 ? cs.timeout_ms - 3000 + t.range(0, 6000) : t.range(0, 6000));
+      w.run(w.now + ms, 20000);
+      snprintf(hb, sizeof hb, "time(+%ums)", ms);
+      break;
+    }
+    default:  // the application gives back a reference taken by the "hold" handler
+      if (cs.held.empty()) { snprintf(hb, sizeof hb, "noop"); break; }
+      {
+        size_t k = t.range(0, (uint32_t)cs.held.size() - 1);
+        coap_session_t *s = cs.held[k];
+        cs.held.erase(cs.held.begin() + (long)k);
+        auto it = cs.live.find(s);
+        if (it != cs.live.end()) it->second.app_refs--;
+        coap_session_release(s);
+        snprintf(hb, sizeof hb, "release");
+      }
+      break;
+    }
+    history.push_back(hb);
+  }
+  if (!cs.violated && settle_before_teardown) {
+    w.run(w.now + 200, 20000);
+    history.push_back("settle");
+    // a connection the peer closed at least 100 ms ago, with nothing referring to its session, has been reclaimed
+    for (auto &kv : cs.live) {
+      auto ca = cs.closed_at.find(kv.second.key.remote);
+      if (ca != cs.closed_at.end() && ca->second + 100 <= w.now && kv.second.app_refs == 0 && kv.second.async_pending == 0 && !cs.violated)
+        fail("connection %s was closed by the peer at %llu and nothing refers to its session, but it is still there at %llu", kv.second.key.str().c_str(), (unsigned long long)ca->second, (unsigned long long)w.now);
+    }
+  }
+  unsigned live_before = (unsigned)cs.live.size();
+  cs.tearing_down = true;
+  for (auto s : cs.held) coap_session_release(s);
+  cs.held.clear();
+  w.remove_context(sctx);
+  coap_free_context(sctx);
+  if (!cs.violated) {
+    if (!cs.live.empty()) fail("%zu session(s) announced by SERVER_SESSION_NEW never got SERVER_SESSION_DEL (first: %s); %u NEW, %u DEL", cs.live.size(), cs.live.begin()->second.key.str().c_str(), cs.news, cs.dels);
+    else if (cs.news != cs.dels) fail("%u SERVER_SESSION_NEW but %u SERVER_SESSION_DEL events", cs.news, cs.dels);
+  }
+  info->nontrivial = cs.news >= 1 && (partials || signals || closes || cs.held_total || cs.async_total);
+  info->label("C:stream-transport");
+  if (partials) info->label("C:partial-message");
+  if (signals) info->label("C:signalling");
+  if (closes) info->label("C:peer-close");
+  if (cs.held_total) info->label("app-reference");
+  if (cs.async_total) info->label("async");
+  if (live_before) info->label("teardown-with-live-sessions");
+  if (w.hit_cap) info->inconclusive = true;
+  std::string h = "TCP; ";
+  for (auto &x : history) { h += x; h += " "; }
+  info->rs(h);
+  info->rs(";");
+  {
+    std::string ev;
+    size_t n = 0;
+    for (auto &e : w.trace) if (e.kind == EV_CALLBACK) { if (n++ > 40) { ev += " ..."; break; } ev += " @" + std::to_string(e.t) + " " + e.note + ";"; }
+    info->rs(ev);
+  }
+  info->mix(h.data(), h.size());
+  for (auto &e : w.trace) if (e.kind == EV_CALLBACK) { info->mixu(e.t); info->mix(e.note.data(), e.note.size()); }
+}
+
 }  // namespace
 
 void verif_init() {
@@ -262,7 +449,11 @@ int verif_case(const uint8_t *tape, size_t tlen, Info *info) {
   A.enabled = true;
   int verdict = HELD;
   std::vector<std::string> history;
-  {
+  // (C) a quarter of the cases (decided by the LAST byte of the tape, so that earlier tapes keep the meaning of their plans) exercise the
+  // life of sessions on a stream transport instead
+  cs.tcp_mode = tlen >= 2 && tape[tlen - 1] >= 192;
+  if (cs.tcp_mode) tcp_scenario(t, cs, info, history);
+  else {
     World w;
     cs.w = &w;
     seed_prng(t.u16());
